@@ -105,7 +105,10 @@ def node(x):
     if isinstance(x, P.GlobalFunction):
         return "%s%s %s ( %s ) ;" % (template(x.template), ret(x.return_type), x.name, args(x.args))
     if isinstance(x, P.Include):
-        return "#include <%s>" % x.header
+        # on a line of its own: the header is copied verbatim and may (after a corruption that glued an
+        # unterminated include to the following text) contain a `//` -- the lexer must not take the rest
+        # of the re-rendered module for the tail of that comment
+        return "\n#include <%s>\n" % x.header
     if isinstance(x, P.ForwardDeclaration):
         s = ("virtual " if x.is_virtual else "") + "class " + typename(x.typename)
         if x.parent_type:
